@@ -346,30 +346,53 @@ func c18LeanBatch(driver string, reqs []string) ([]string, error) {
 // "q<n>", so that each of them can be looked for separately whatever case folding, trimming or
 // splitting the value went through.  No space, comma, slash or '@' (those are structure in NAME,
 // PLAC and pointers).
-func c18Token(n int) string {
+func c18Token(n int) string { return c18TokenV(n, 0) }
+
+// c18Variants: which special characters a token carries.  A token with all five never reaches a
+// fast path that is only wrong for some of them (an escaper that is skipped unless the value
+// contains '&', '<' or '>'), so every single character and every pair is used too, and one
+// variant is an attribute-injection payload.
+var c18Variants = []string{"<\"'>&", "<", ">", "\"", "'", "&", "<>", "<\"", "<'", "<&", ">\"", ">'", ">&", "\"'", "\"&", "'&", "\"P"}
+
+// c18PayloadVariant is the index of the payload variant (it contains a space and '=').
+const c18PayloadVariant = 16
+
+func c18TokenV(n, variant int) string {
 	m := fmt.Sprintf("q%05d", n)
-	return m + "<" + m + "\"" + m + "'" + m + ">" + m + "&" + m + "z"
+	v := c18Variants[variant%len(c18Variants)]
+	if v == "\"P" {
+		return m + "\" onmouseover=\"" + m + "z"
+	}
+	s := ""
+	for i := 0; i < len(v); i++ {
+		s += m + string(v[i])
+	}
+	return s + m + "z"
 }
 
 type c18Doc struct {
-	Text   string
-	Kinds  map[int]string // taint id -> value kind
-	NIndi  int
-	NFam   int
-	NSour  int
-	Notes  []string // generator decisions, for the replay
-	Taint  bool
-	Places []string
+	Text     string
+	Kinds    map[int]string // taint id -> value kind
+	NIndi    int
+	NFam     int
+	NSour    int
+	Notes    []string // generator decisions, for the replay
+	Taint    bool
+	Places   []string
+	Variants map[string]int // value kind / special characters -> number of values
 }
 
 type c18Gen struct {
-	r      *Rand
-	taint  bool
-	next   int
-	kinds  map[int]string
-	sb     strings.Builder
-	notes  []string
-	places []string
+	r        *Rand
+	taint    bool
+	next     int
+	kinds    map[int]string
+	sb       strings.Builder
+	notes    []string
+	places   []string
+	rot      int
+	perKind  map[string]int
+	variants map[string]int
 }
 
 // val decorates a benign value with a taint token (taint mode) — kind is recorded for the report.
@@ -379,13 +402,29 @@ func (g *c18Gen) val(kind, benign string) string {
 	}
 	g.next++
 	g.kinds[g.next] = kind
+	tok := c18TokenV(g.next, g.variant(kind, true))
 	switch g.r.Intn(3) {
 	case 0:
-		return c18Token(g.next)
+		return tok
 	case 1:
-		return benign + c18Token(g.next)
+		return benign + tok
 	}
-	return c18Token(g.next) + benign
+	return tok + benign
+}
+
+// variant rotates the token variants over the value kinds: the k-th value of a kind in document
+// number d gets variant (k + d) — over a few documents every kind meets every variant.
+func (g *c18Gen) variant(kind string, payloadOK bool) int {
+	if g.perKind == nil {
+		g.perKind = map[string]int{}
+	}
+	g.perKind[kind]++
+	v := (g.perKind[kind] + g.rot) % len(c18Variants)
+	if v == c18PayloadVariant && !payloadOK {
+		v = 3 // the bare quote
+	}
+	g.variants[kind+"/"+c18Variants[v]]++
+	return v
 }
 
 func (g *c18Gen) line(level int, rest string) {
@@ -402,7 +441,8 @@ var c18HostilePtr = []string{"../x", "a/b", "places", "S/../x", "..", "/etc/pass
 // c18Generate builds a family graph.  mode: "taint" (C18), "hostile" (C19: hostile pointers and
 // colliding names), "plain".
 func c18Generate(r *Rand, mode string, nowYear int, firstID int) *c18Doc {
-	g := &c18Gen{r: r, taint: mode == "taint", kinds: map[int]string{}, next: firstID}
+	g := &c18Gen{r: r, taint: mode == "taint", kinds: map[int]string{}, next: firstID, variants: map[string]int{}}
+	g.rot = r.Intn(len(c18Variants))
 	hostile := mode == "hostile"
 	nI := 1 + r.Intn(7)
 	if r.Chance(1, 8) {
@@ -420,7 +460,7 @@ func c18Generate(r *Rand, mode string, nowYear int, firstID int) *c18Doc {
 		case g.taint && r.Chance(1, 3):
 			g.next++
 			g.kinds[g.next] = kind
-			p = prefix + c18Token(g.next)
+			p = prefix + c18TokenV(g.next, g.variant(kind, false))
 		case hostile && r.Chance(1, 2):
 			p = r.Pick(c18HostilePtr)
 		}
@@ -618,7 +658,7 @@ func c18Generate(r *Rand, mode string, nowYear int, firstID int) *c18Doc {
 		}
 	}
 	g.line(0, "TRLR")
-	return &c18Doc{Text: g.sb.String(), Kinds: g.kinds, NIndi: nI, NFam: nF, NSour: nS, Taint: g.taint, Places: g.places}
+	return &c18Doc{Text: g.sb.String(), Kinds: g.kinds, NIndi: nI, NFam: nF, NSour: nS, Taint: g.taint, Places: g.places, Variants: g.variants}
 }
 
 func c18RandOpts(r *Rand) c18Opts {
